@@ -126,7 +126,7 @@ func c11Cases(r *core.Run) []c11Case {
 	out = append(out, c11Case{ID: fmt.Sprintf("c11-s%d-quiet", r.Seed), Seed: r.Seed, Quiet: 6, Version: 1, Sessions: 6})
 	// uploads of large multi-frame messages to a backend that keeps pinging (own worker process: see C11)
 	for i := 0; i < r.Pick(2, 8); i++ {
-		out = append(out, c11Case{ID: fmt.Sprintf("c11-s%d-ping%d", r.Seed, i), Seed: r.Seed*100 + int64(i), PingUs: []int{1500, 1000, 2000, 500}[i%4], C2S: 40, Version: 1, Sessions: 1, Rewrite: i%2 == 1})
+		out = append(out, c11Case{ID: fmt.Sprintf("c11-s%d-ping%d", r.Seed, i), Seed: r.Seed*100 + int64(i), PingUs: []int{1500, 1000, 2000, 500}[i%4], C2S: r.Pick(14, 40), Version: 1, Sessions: 1, Rewrite: i%2 == 1})
 	}
 	// also mostly waiting, overlapping the quiet history: a backend that is busy for several seconds
 	for i, ms := range []int{7000, 6000, 9000, 12000}[:r.Pick(1, 4)] {
@@ -211,7 +211,7 @@ func c11Cases(r *core.Run) []c11Case {
 // C11 — shimmed websockets deliver every message once, in order, unchanged.
 func C11(r *core.Run) {
 	r.Level = "exploration"
-	r.SetRule("websockets.Proxy driven in-process (race-built worker, agent's GODEBUG defaults) against a real gorilla websocket backend; one case = one seeded message history over 1-2 shim sessions: text (valid UTF-8 incl. NUL, quotes, <>&, U+2028, 4-byte runes) and binary (all byte values, protocol v1) messages of sizes {0,1,125,126,127,65535,65536,65537,1 MiB,random}, client messages partitioned into data posts of 1-40 (some >10 = queue capacity, some spanning two sessions), backend bursts of 1-100 sent before / while / trickling during polls, one data post and one poll outstanding per session; every third history ends with a final backend burst of 1-30 messages (incl. 10, 11, 12, 30) sent while no poll is outstanding followed by a graceful backend close (in half of them a client data post arrives before the first poll), after which polls must deliver the burst and then report the session closed; plus one quiet history: 6 idle sessions polled the way the browser shim polls (one poll outstanding, re-poll on every answer) while the backend is silent for 16 s, speaks, and speaks again at 20.6 s (around the 20 s poll time-out), every message to be delivered exactly once; plus uploads of 40 messages of 0.5-1 MiB (hundreds of frames each) to a backend that sends a keep-alive ping every 0.5-2 ms, run in a worker process of their own so that a panic on a connection goroutine is attributed; rewriteWebsocketHost varied independently of injection (all four combinations, resource.headers traffic in each); plus a busy-backend history: the backend does not read for 7 s (thorough also 6, 9, 12 s) and then resumes, while the client posts a 12 MiB message, ten small ones and further posts that have to wait for room, and goes on posting whatever the answers are; what the backend receives must be a gap-free prefix of what was posted and contain every post answered 200; plus reopen histories: open A, open B, traffic on A, A ends (client close | backend close reported by a poll), open C, then interleaved two-session traffic (posts spanning B and C) with every backend connection and every session's polls checked for exactly their own messages; plus close-behind-data histories: 1-35 messages (more than the queue, or 1 MiB each) posted to a backend that reads one message per 5-20 ms, close posted right behind the last data post, all messages must arrive in order followed by a normal closure; with injection enabled JSON messages of 13 shapes around resource.headers; class = (injection, protocol version, sessions, size profile, kinds, post batching, poll timing)")
+	r.SetRule("websockets.Proxy driven in-process (race-built worker, agent's GODEBUG defaults) against a real gorilla websocket backend; one case = one seeded message history over 1-2 shim sessions: text (valid UTF-8 incl. NUL, quotes, <>&, U+2028, 4-byte runes) and binary (all byte values, protocol v1) messages of sizes {0,1,125,126,127,65535,65536,65537,1 MiB,random}, client messages partitioned into data posts of 1-40 (some >10 = queue capacity, some spanning two sessions), backend bursts of 1-100 sent before / while / trickling during polls, one data post and one poll outstanding per session; every third history ends with a final backend burst of 1-30 messages (incl. 10, 11, 12, 30) sent while no poll is outstanding followed by a graceful backend close (in half of them a client data post arrives before the first poll), after which polls must deliver the burst and then report the session closed; plus one quiet history: 6 idle sessions polled the way the browser shim polls (one poll outstanding, re-poll on every answer) while the backend is silent for 16 s, speaks, and speaks again at 20.6 s (around the 20 s poll time-out), every message to be delivered exactly once; plus uploads of 14 (thorough 40) messages of 0.5-1 MiB (hundreds of frames each) to a backend that sends a keep-alive ping every 0.5-2 ms, run in a worker process of their own so that a panic on a connection goroutine is attributed; rewriteWebsocketHost varied independently of injection (all four combinations, resource.headers traffic in each); plus a busy-backend history: the backend does not read for 7 s (thorough also 6, 9, 12 s) and then resumes, while the client posts a 12 MiB message, ten small ones and further posts that have to wait for room, and goes on posting whatever the answers are; what the backend receives must be a gap-free prefix of what was posted and contain every post answered 200; plus reopen histories: open A, open B, traffic on A, A ends (client close | backend close reported by a poll), open C, then interleaved two-session traffic (posts spanning B and C) with every backend connection and every session's polls checked for exactly their own messages; plus close-behind-data histories: 1-35 messages (more than the queue, or 1 MiB each) posted to a backend that reads one message per 5-20 ms, close posted right behind the last data post, all messages must arrive in order followed by a normal closure; with injection enabled JSON messages of 13 shapes around resource.headers; class = (injection, protocol version, sessions, size profile, kinds, post batching, poll timing)")
 	r.Assume("binary messages are only generated under shim protocol version 1 (version 0 carries text only); JSON numbers in injected messages are float64-exact; injection is judged as safety only (an unchanged message is always acceptable)")
 	bin := r.MustBuild(r.BuildWorker())
 	godebug := shimGodebug(r)
